@@ -122,6 +122,24 @@ def scale_of(e):
     return max(1.0, float(f.max())) if f.size else 1.0
 
 
+def field_scale(m, fi):
+    """magnitude of a field: the largest finite stored sample over all levels (1.0 when there is none). Tolerances
+    on interpolated values are relative to it - not to 1.0, which would wave through anything a trace quantity
+    (mass fractions of 1e-10) could get wrong, and not to the expected values of one box or plane alone, which can
+    cancel to nothing between samples of ordinary size."""
+    cache = m.__dict__.setdefault("_field_scale", {})
+    if fi not in cache:
+        best = 0.0
+        for lv in range(m.nlevels):
+            for a in m.data[lv]:
+                v = np.abs(a[..., fi])
+                v = v[np.isfinite(v)]
+                if v.size:
+                    best = max(best, float(v.max()))
+        cache[fi] = best if best > 0.0 else 1.0
+    return cache[fi]
+
+
 def reference(vol, n, pos):
     """-> dict(value[nx,ny,nf], decided[nx,ny], T[nx,ny], S[nx,ny], levels_ok[L+1][nx,ny])
     in-plane axes (cx, cy) = the two non-normal axes in increasing order (not transposed)"""
